@@ -3633,6 +3633,44 @@ impl LineBuf {
 					}
 				}
 			}
+			Verb::JoinLines if !self.is_selecting() => {
+				// As Vim joins: count lines (two at least, as many as there are). Each loses its leading blanks and gets one
+				// space in front - unless it is then empty, starts with ')', nothing has been collected yet, or the line
+				// before it ended in a blank. The cursor goes where the last line was attached.
+				let start = self.start_of_line();
+				self.update_graphemes_lazy();
+				let start_byte = self.grapheme_indices().get(start).copied().unwrap_or(self.buffer.len());
+				let tail = self.buffer[start_byte..].to_string();
+				let mut lines: Vec<&str> = tail.split('\n').collect();
+				if tail.ends_with('\n') {
+					lines.pop();
+				}
+				if lines.len() < 2 {
+					// Nothing to join. A count of three or more is cut down to the one line there is, and the cursor
+					// goes to its start
+					if self.verb_count >= 3 {
+						self.cursor.set(start);
+					}
+					return Ok(())
+				}
+				let n = self.verb_count.max(2).min(lines.len());
+				let mut joined = lines[0].to_string();
+				let mut col = 0;
+				let mut last = joined.chars().last();
+				for line in &lines[1..n] {
+					let line = line.trim_start_matches([' ','\t']);
+					col = joined.graphemes(true).count();
+					if !line.is_empty() && !line.starts_with(')') && !joined.is_empty() && !matches!(last, Some(' ') | Some('\t')) {
+						joined.push(' ');
+					}
+					joined.push_str(line);
+					last = line.chars().last();
+				}
+				let old_len = lines[..n].iter().map(|line| line.len()).sum::<usize>() + (n - 1);
+				self.buffer.replace_range(start_byte..start_byte + old_len, &joined);
+				self.update_graphemes();
+				self.cursor.set(start + col.min(joined.graphemes(true).count().saturating_sub(1)));
+			}
 			Verb::JoinLines => {
 				let start = self.start_of_line();
 				let Some((_,mut end)) = self.nth_next_line(1) else {
